@@ -24,6 +24,12 @@ import numpy as np
 from vf import lattice
 from vf.cli import HarnessError, WorkerResult
 
+
+def _gt(a, b):
+    """a > b that is also True when a is NaN (a silent NaN must never pass a tolerance test)."""
+    return ~(np.asarray(a) <= np.asarray(b))
+
+
 LEVEL = "exploration"
 RULE = (
     "complete product alpha x r x type x normalisation (one evaluation each) + all (K_s,K_p) "
@@ -152,13 +158,13 @@ def _single_shard(arg):
             # large-r limit: r V -> total charge
             res.count()
             j = rs.index(1e8) if 1e8 in rs else len(rs) - 2
-            if abs(rs[j] * got[j] - fac) > 1e-9 * fac and not n_sig:
+            if _gt(abs(rs[j] * got[j] - fac), 1e-9 * fac) and not n_sig:
                 res.violation(f"coulomb_gaussian_{kind}:wrong-total-charge",
                               f"r V(r) at r={rs[j]:.3g} is {rs[j] * got[j]!r}, total charge of the documented density {fac!r}", case)
             # continuity across the switch (true variation there is ~ alpha r^2 ~ 1e-24 relative)
             res.count()
             a, b = got[rs.index(0.99e-12)], got[rs.index(1.01e-12)]
-            if abs(a - b) > 1e-9 * abs(b):
+            if _gt(abs(a - b), 1e-9 * abs(b)):
                 res.violation(f"coulomb_gaussian_{kind}:discontinuous-across-switch",
                               f"V(0.99e-12)={a!r} vs V(1.01e-12)={b!r} for alpha={alpha:.4g}", case)
             # scalar input gives the same value
@@ -227,7 +233,7 @@ def _multi(ctx, POINTS, CENTRES, ALPH, PC, PAL, label):
             ref += c * coulomb_gaussian_p(np.linalg.norm(POINTS - ctr, axis=1), a, normalized=normalized)
         ctx.nontrivial(("multi", label, ks, kp, normalized), section="multi")
         scale = np.abs(ref) + 1e-12 * (np.sum(np.abs(co)) + np.sum(np.abs(PCO[:kp])) + 1)
-        if got.shape != (len(POINTS),) or np.any(np.abs(got - ref) > 1e-13 * scale * 10):
+        if got.shape != (len(POINTS),) or np.any(_gt(np.abs(got - ref), 1e-13 * scale * 10)):
             ctx.violation(f"coulomb_potential:not-the-weighted-sum:{label}",
                           f"coulomb_potential(K_s={ks}, K_p={kp}, normalized={normalized}, {label}) differs from the "
                           f"coefficient-weighted sum of the single-centre functions: {got} vs {ref}", case)
